@@ -1,20 +1,25 @@
 #!/usr/bin/env python3
 """mark_fixed.py <commit> <what> <replay.json>...: move replays to replays/fixed/ and record them as fixed findings."""
-import json, os, shutil, sys
+import json, os, sys
 V = os.path.dirname(os.path.dirname(os.path.abspath(__file__)))
 commit, what = sys.argv[1], sys.argv[2]
 kf = json.load(open(os.path.join(V, "known_findings.json")))
 os.makedirs(os.path.join(V, "replays", "fixed"), exist_ok=True)
 for f in sys.argv[3:]:
     rp = json.load(open(f))
-    dst = os.path.join("replays", "fixed", os.path.basename(f))
+    sig = rp["class"]
+    base = os.path.basename(f)
+    n = 1
+    while any(k["property"] == rp["property"] and k["signature"] == sig for k in kf) or os.path.exists(os.path.join(V, "replays", "fixed", base)):
+        n += 1
+        sig = "%s#%d" % (rp["class"], n)
+        base = os.path.basename(f).replace(".json", "-%d.json" % n)
+    dst = os.path.join("replays", "fixed", base)
     rp["replay"] = "./check %s --replay %s" % (rp["property"], dst)
     json.dump(rp, open(os.path.join(V, dst), "w"), indent=1, sort_keys=True)
     if os.path.abspath(f) != os.path.abspath(os.path.join(V, dst)):
         os.unlink(f)
-    if any(k["property"] == rp["property"] and k["signature"] == rp["class"] for k in kf):
-        raise SystemExit("signature %s already registered: give the replay another name and register it by hand" % rp["class"])
-    kf.append({"property": rp["property"], "signature": rp["class"], "status": "fixed", "commit": commit,
+    kf.append({"property": rp["property"], "signature": sig, "status": "fixed", "commit": commit,
                "what": what, "replay": dst,
                "line": "fixed: property=%s %s %s (%s)" % (rp["property"], commit, what, rp["class"])})
 kf.sort(key=lambda k: (k["property"], k["signature"]))
